@@ -69,7 +69,7 @@ func genRegStep(r *Rng, npool int) Step {
 	case 2:
 		return Step{Op: "names"}
 	}
-	return Step{Op: "setdeco", A: r.Intn(npool + 6 + 8)}
+	return Step{Op: "setdeco", A: r.Intn(npool + 6 + 8), B: r.Intn(4)}
 }
 
 func (engC17) Gen(r *Rng, s *Script, idx int, tier string) {
@@ -201,7 +201,11 @@ func (engC19) Gen(r *Rng, s *Script, idx int, tier string) {
 		if r.Chance(1, 3) {
 			steps = append(steps, Step{Op: "probe", A: r.Intn(64)})
 		} else {
-			steps = append(steps, Step{Op: "reg", A: r.Intn(npool), B: r.Intn(20)})
+			st := Step{Op: "reg", A: r.Intn(npool), B: r.Intn(20)}
+			if r.Chance(1, 10) {
+				st.C = 1
+			}
+			steps = append(steps, st)
 		}
 	}
 	steps = append(steps, Step{Op: "probe", A: r.Intn(64)})
@@ -333,7 +337,7 @@ func (engC16) Gen(r *Rng, s *Script, idx int, tier string) {
 			steps = append(steps, Step{Op: "rowItems", Items: common})
 		}
 		for i := r.Range(1, 6); i > 0; i-- {
-			switch r.Pick([]int{8, 2, 2, errW}) {
+			switch r.Pick([]int{8, 2, 3, errW}) {
 			case 0:
 				steps = append(steps, genBuildStep(r, m, level, &ctr))
 			case 1:
